@@ -74,6 +74,7 @@ type simCtx struct {
 	flipSite                 pollSite
 	seenAt                   time.Time
 	callsNow                 func() int // file leg: number of file-system events so far (instead of rs.calls)
+	afterCancel              func()     // file leg: lets goroutines that react to the cancellation run before the reader goes on
 	reason                   error      // what Err() reports once the context has ended: Canceled, or DeadlineExceeded (its simulated deadline passes at the flip)
 }
 
@@ -93,6 +94,9 @@ func (c *simCtx) cancel() {
 	if !c.cancelled {
 		c.cancelled = true
 		close(c.done)
+		if c.afterCancel != nil {
+			c.afterCancel()
+		}
 	}
 }
 
@@ -162,6 +166,9 @@ type countRS struct {
 	sinceSeek int
 	matchIO   *ioSite
 	flipIO    ioSite
+	// real-context leg: realCancel is called when the n-th Read is entered
+	realCancel  func()
+	callsAtReal int
 }
 
 type ioSite struct {
@@ -177,7 +184,12 @@ func (c *countRS) Read(p []byte) (int, error) {
 	here := ioSite{Seek: c.lastSeek, Occ: c.seekOcc[c.lastSeek], J: c.sinceSeek}
 	if (c.flipAtRead > 0 && c.reads == c.flipAtRead) || (c.matchIO != nil && *c.matchIO == here) {
 		c.flipIO = here
-		c.ctx.cancel() // "another goroutine" cancels while the reader is inside this Read
+		if c.realCancel != nil {
+			c.realCancel()
+			c.callsAtReal = c.calls
+		} else {
+			c.ctx.cancel() // "another goroutine" cancels while the reader is inside this Read
+		}
 	}
 	n, err := c.r.Read(p)
 	c.bytes += int64(n)
@@ -305,6 +317,7 @@ type readOutcome struct {
 	err        error
 	polls      int
 	calls      int
+	reads      int
 	bytes      int64
 	seen       bool
 	pollsAfter int
@@ -357,6 +370,7 @@ func doReadIO(b []byte, flipAtPoll, flipAtRead int, match *pollSite, matchIO *io
 	}()
 	end := time.VerifRealNow()
 	out.polls, out.calls, out.bytes = sc.polls, rs.calls, rs.bytes
+	out.reads = rs.reads
 	out.seen = sc.firstSeen
 	out.flipSite = sc.flipSite
 	out.flipIO = rs.flipIO
@@ -392,6 +406,14 @@ func doReadFile(b []byte, flipAtPoll int, reason string) (out readOutcome, leake
 	sc.rs = &countRS{seekOcc: map[int64]int{}}
 	sc.flipAtPoll = flipAtPoll
 	sc.callsNow = func() int { return len(sim.Events) }
+	// whatever the code under test has registered to run on cancellation (context.AfterFunc, a watcher
+	// goroutine) gets to run before the reader's next step: the schedule in which such a helper wins
+	sc.afterCancel = func() {
+		for i := 0; i < 20; i++ {
+			runtime.Gosched()
+		}
+		time.Sleep(2 * time.Millisecond)
+	}
 	simfs.Activate(sim)
 	func() {
 		defer func() {
@@ -712,6 +734,57 @@ func (c10) RunUnit(raw core.Unit, tier string, seed int64) core.UnitResult {
 		out := doRead(b, 0, n, nil, reason)
 		at := out.flipIO
 		record("io", n, out, C10Replay{Doc: u.Doc, Mode: "io", N: n, IOSite: &at, Reason: reason, MapSalt: mapSalt})
+	}
+	// real contexts that carry a cancellation cause (context.WithCancelCause): the error must match
+	// the context's error (context.Canceled), not the cause
+	{
+		nc := 12
+		if u.MaxK == 0 {
+			nc = 100
+		}
+		for i := 0; i < nc; i++ {
+			n := 1 + rng.IntN(full.reads)
+			cctx, cancel := context.WithCancelCause(context.Background())
+			runtime.VerifSetMapRand(mapSalt ^ 0xC10C10C10)
+			simclock.Install(mapSalt)
+			rs := &countRS{r: bytes.NewReader(b), ctx: newSimCtx(), flipAtRead: n, seekOcc: map[int64]int{}}
+			rs.realCancel = func() { cancel(errors.New("verif: custom cancellation cause")) }
+			var out readOutcome
+			func() {
+				defer func() {
+					if p := recover(); p != nil {
+						out.panicVal = p
+					}
+				}()
+				out.ctx, out.err = pdfcpu.ReadWithContext(cctx, rs, conf())
+			}()
+			simclock.Uninstall()
+			cancel(nil)
+			res.Evaluations++
+			res.FaultFired["cancel-io-cause"]++
+			rp := C10Replay{Doc: u.Doc, Mode: "io-cause", N: n, MapSalt: mapSalt}
+			pb, _ := json.Marshal(rp)
+			mkc := func(class, detail string) {
+				res.Violations = append(res.Violations, core.Violation{Property: "C10", Class: class, Signature: fmt.Sprintf("%s|%s|io-cause|%s|", u.Doc.Name, u.Doc.Mutate, class), Replay: pb,
+					Detail: fmt.Sprintf("document %s, context.WithCancelCause cancelled with a custom cause inside Read call %d: err=%v doc=%v; %s", u.Doc.Name, n, out.err, out.ctx != nil, detail)})
+			}
+			switch {
+			case out.panicVal != nil:
+				mkc("panic", fmt.Sprint(out.panicVal))
+			case out.err != nil && out.ctx != nil:
+				mkc("document-and-error", "a document and an error were returned together")
+			case out.err != nil && !errors.Is(out.err, context.Canceled):
+				mkc("wrong-error", "the error does not match the context's error (context canceled)")
+			case out.err == nil && out.ctx == nil:
+				mkc("nil-nil", "neither a document nor an error")
+			}
+			if rs.callsAtReal > 0 && rs.calls-rs.callsAtReal > B+1 {
+				mkc("not-prompt", fmt.Sprintf("%d ReadSeeker calls after the cancellation (bound %d)", rs.calls-rs.callsAtReal, B))
+			}
+			if out.err != nil {
+				res.Nontrivial = append(res.Nontrivial, fmt.Sprintf("%s|%s|io-cause|%d", u.Doc.Name, u.Doc.Mutate, n))
+			}
+		}
 	}
 	// file leg (ReadFileWithContext): pre-cancelled and cancellation at sampled polls
 	{
